@@ -20,6 +20,7 @@ func c17(c *Ctx) {
 		"(deterministic) nothing in the derivation packages draws randomness: no reference to crypto/rand, the random wrappers or NewBytesFromRand, and every stdlib key generator there is fed the PRF stream reader parameter; every AddKeyWithOpts call passes WithFixedID, so the manager's random key IDs are unreachable; " +
 		"(percall) registered key-deriver closures capture no mutable state (decided under C18: closures' captured memory is in their write sets)."
 	c17PrefixMatch(c)
+	c17ReadSize(c)
 	var f *ssa.Function
 	for _, m := range methodsOf(p, "keyderivation", "wrappedKeysetDeriver") {
 		if m.Name() == "DeriveKeyset" {
